@@ -8,12 +8,41 @@ open KrroodVerif KrroodVerif.Eql KrroodVerif.Drive.EqlParse
 def sortNat (xs : List Nat) : List Nat :=
   xs.foldl (fun acc x => let (a, b) := acc.span (· ≤ x); a ++ [x] ++ b) []
 
+/-- `an(entity(x, contains(L, flatten(x.items))))` where every `x.items` is a one-shot generator: number of inner
+elements consumed from each object's generator after `k` results. Objects before the one that produced the k-th
+result are drained, that object is consumed up to the matching element, later objects are untouched. -/
+def flatPulls : List (List Int) → List Int → Nat → List Nat
+  | [], _, _ => []
+  | xs :: rest, lit, k =>
+    if k == 0 then (xs :: rest).map fun _ => 0
+    else
+      let hits := (xs.filter (lit.contains ·)).length
+      if hits ≥ k then
+        -- position (1-based) of the k-th matching element of xs
+        let rec pos : List Int → Nat → Nat → Nat
+          | [], _, acc => acc
+          | y :: ys, need, acc =>
+            if lit.contains y then (if need == 1 then acc + 1 else pos ys (need - 1) (acc + 1)) else pos ys need (acc + 1)
+        pos xs k 0 :: rest.map fun _ => 0
+      else xs.length :: flatPulls rest lit (k - hits)
+
+def runFlat (items : List Sexp) : Option String := do
+  let objs ← (← Sexp.field? items "objs").mapM fun o => match o with
+    | .list xs => xs.mapM Sexp.asInt?
+    | _ => none
+  let lit ← (← Sexp.field? items "lit").mapM Sexp.asInt?
+  let total := (objs.map fun xs => (xs.filter (lit.contains ·)).length).foldl (· + ·) 0
+  let line := fun (k : Nat) => s!"k{k}:" ++ showList ((flatPulls objs lit k).map toString)
+  let out := s!"n={total} " ++ " ".intercalate ((List.range (total + 2)).map line)
+  pure s!"model={out}\tspec={out}\ttrig="
+
 /-- `n=<rows> k0:[p_v1,p_v2,…] k1:[…] …` — per number of consumed results, the number of elements pulled from each
 variable's domain (variables in increasing id order), as the demand-driven trace model predicts -/
 def run (s : Sexp) : String :=
   -- `(silent k)`: construction scenario number k of the harness (match patterns, rule trees, predicates, …):
   -- building is a pure function of the description in every model: no event is performed
   if let .list [.atom "silent", _] := s then "model=silent\tspec=silent\ttrig=" else
+  if let .list (.atom "flat" :: items) := s then (runFlat items).getD "error=bad-case" else
   match parseCase s with
   | none => "error=bad-case"
   | some (w, q) =>
